@@ -73,15 +73,18 @@ LossJustified(x, srtt, latest) ==
      \* named tolerance: Timestamp::has_elapsed treats a deadline less than the timer granularity (1 ms) ahead as
      \* elapsed, so a loss may be declared up to kGranularity before the threshold
      (x.t - x.tsent) + Granularity >= thr
+\* metrics of a path other than the first one: the connection is multi-path from now on (per-path state is not modelled)
+MetricsOtherPath == paths' = Max2(paths, 2) /\ pendingLoss' = <<>> /\ preDiscard' = None
+  /\ UNCHANGED <<sent, resolvedMax, lastCc, largestAcked, bif, ptoCount, minLatest, maxLatest, closing, prevRtt>>
 Metrics(srtt, latest, minrtt, bytesInFlight, pto) ==
   /\ (\A i \in 1..Len(pendingLoss) : LossJustified(pendingLoss[i], srtt, latest)) = TRUE
   /\ paths > 1 \/ closing \/ bytesInFlight = (IF preDiscard # None THEN preDiscard ELSE bif)     \* exact ledger (single path)
   /\ preDiscard' = None
-  /\ pto \in {ptoCount, ptoCount + 1, 0}
+  /\ paths > 1 \/ pto \in {ptoCount, ptoCount + 1, 0}
   /\ minrtt <= latest + 1 /\ minrtt <= srtt + 1
   /\ LET mn == IF minLatest = None THEN latest ELSE Min2(minLatest, latest)
          mx == IF maxLatest = None THEN latest ELSE Max2(maxLatest, latest) IN
-     /\ srtt <= mx + 1
+     /\ paths > 1 \/ srtt <= mx + 1
      /\ minLatest' = mn /\ maxLatest' = mx
   /\ pendingLoss' = <<>> /\ ptoCount' = pto
   /\ prevRtt' = Max2(srtt, latest)
